@@ -58,7 +58,10 @@ def merge_stage(results, acc):
         for k, v in j.get("class_counts", {}).items():
             acc["class_counts"][k] = acc["class_counts"].get(k, 0) + v
         for k, v in j.get("extra", {}).items():
-            acc["extra"].setdefault(k, v)
+            if k in acc["extra"] and acc["extra"][k] != v and acc.get("stage"):
+                acc["extra"]["%s@%s" % (k, acc["stage"])] = v  # a later stage reports the same bound with another value
+            else:
+                acc["extra"].setdefault(k, v)
         for s in j.get("samples", []):
             if len(acc["samples"]) < 16:
                 acc["samples"].append(s)
@@ -167,6 +170,7 @@ def main():
         before = len(acc["violations"])
         nd = len(acc["dead_shards"])
         acc["prop"] = a.prop
+        acc["stage"] = st["name"]
         merge_stage(res, acc)
         for ds in acc["dead_shards"][nd:]:
             ds["stage"] = st["name"]
